@@ -774,15 +774,20 @@ func CornerTrade(rng *rand.Rand) string {
 			d := 1 + rng.Intn(4)
 			bd[sq(cf+d*dir, 7-d)] = 11
 		}
-		// the capturing rook on the corner file
+		// the capturer: a rook on the corner file, or (one time in four) the enemy KING standing next to the corner
 		wr := rng.Intn(6)
 		if bd[sq(cf, wr)] != 0 {
 			continue
 		}
-		bd[sq(cf, wr)] = 4
+		kingTakes := rng.Intn(4) == 0
+		if !kingTakes {
+			bd[sq(cf, wr)] = 4
+		}
 		wcr := 0
 		wk := sq(6-rng.Intn(5), 0)
-		if rng.Intn(3) == 0 {
+		if kingTakes {
+			wk = [][]int{{sq(0, 6), sq(1, 6)}, {sq(7, 6), sq(6, 6)}}[cf/7][rng.Intn(2)]
+		} else if rng.Intn(3) == 0 {
 			wk = sq(4, 0)
 			if wr == 0 {
 				wcr = []int{2, 1}[cf/7]
